@@ -2263,7 +2263,11 @@ def check_C20(work):
                 for mon in sorted(set(m for _, m in v["viol"])):
                     out.report("%s@%s" % (mon, byjob.get(v["job"], {}).get("fam")), dict(property="C20", job=byjob.get(v["job"]), viol=v["viol"][:20]))
     nruns, nev = count_runs(tfiles)
-    cov = dict(states=sum(r["states"] for r in res), transitions=nev, traces_validated_against_impl=nruns,
+    # design level: InvFdBound / InvNoResidue of Kismet.tla (the library's own descriptors, every interleaving, with and without maintenance,
+    # with one failing call)
+    design = design_runs(work, out, Q(["MCplain2q", "MCstack2", "MCstack5q"], ["MCplain2q", "MCstack2", "MCstack4", "MCstack5", "MCstack6", "MCfault3"]))
+    cov = dict(states=sum(r["states"] for r in res) + sum(d["states"] for d in design), transitions=nev + sum(d["transitions"] for d in design), traces_validated_against_impl=nruns,
+               design_level=[dict(cfg=d["cfg"], states=d["states"], transitions=d["transitions"], ok=d["ok"], wall_s=round(d.get("wall", 0), 1)) for d in design],
                samples=[dict(front=j["fam"], sizes=sizes) for j in jobs[:2]],
                rule="each operation (get/touch miss and hit, put insert/existing, set overwrite/fresh, ensure hit/miss, put_temp_file) x front end "
                     "{plain, sharded, stack depth 1-3, stack depth 3 with checker} against directories pre-filled with %s entries, maintenance never firing: "
